@@ -36,6 +36,8 @@ def emit_function(cname, spec, af=False, extra_opts=None):
         fs = [f for f in fs if r['nsel'] not in X.qtype(f)]
     if r.get('cls_targs'):
         fs = [f for f in fs if list(f.get('_cls_targs', [])) == list(r['cls_targs'])]
+    if r.get('cls_targs_has'):
+        fs = [f for f in fs if any(r['cls_targs_has'] in a for a in f.get('_cls_targs', []))]
     if len(fs) == 0:
         raise X.ExtractError('function %s (%s::%s) not found in the AST' % (cname, r.get('cls'), r['name']))
     # several identical instantiations may be printed; they must agree in source range
@@ -159,7 +161,7 @@ def emit_fragment(fname):
     return dict(text=txt, native_text=ntxt, sig='', fired=em.fired, audit=[audit], loops=[], calls=em.calls, free=em.free)
 
 
-def gen_struct(uname, cls, cls_targs=None, cname=None):
+def gen_struct(uname, cls, cls_targs=None, cname=None, cls_targs_has=None):
     """C struct generated from the FieldDecls of the (instantiated or pattern) class (G10)."""
     u = unit(uname)
     cs = u.find_class(cls)
@@ -167,6 +169,10 @@ def gen_struct(uname, cls, cls_targs=None, cname=None):
         def targs(c):
             return [str(a.get('type', {}).get('qualType', a.get('value'))) for a in X.kids(c) if a['kind'] == 'TemplateArgument']
         cs = [c for c in cs if targs(c) == list(cls_targs)]
+    if cls_targs_has is not None:
+        def targs2(c):
+            return [str(a.get('type', {}).get('qualType', a.get('value'))) for a in X.kids(c) if a['kind'] == 'TemplateArgument']
+        cs = [c for c in cs if any(cls_targs_has in a for a in targs2(c))]
     if not cs:
         raise X.ExtractError('class %s not found' % cls)
     c = cs[-1]
@@ -234,11 +240,15 @@ def build_tu(job):
         if st.get('opaque'):
             parts.append('struct %s { int vp_opaque; };' % st['cname'])
             continue
-        sdef, scopy = gen_struct(st.get('unit', 'kernels'), st['cls'], st.get('cls_targs'), st.get('cname'))
+        if st.get('prelude'):
+            parts.append('#include "%s"' % st['prelude'])
+            continue
+        sdef, scopy = gen_struct(st.get('unit', 'kernels'), st['cls'], st.get('cls_targs'), st.get('cname'), st.get('cls_targs_has'))
         parts.append(sdef)
         if st.get('vec'):
             parts.append('VP_DECLARE_VEC(vec_%s, struct %s)' % (st.get('cname') or st['cls'], st.get('cname') or st['cls']))
             parts.append('VP_DEFINE_VEC_OPS_STRUCT(vec_%s, struct %s)' % (st.get('cname') or st['cls'], st.get('cname') or st['cls']))
+            parts.append('VP_DEFINE_VEC_PUSH_PTR(vec_%s, struct %s)' % (st.get('cname') or st['cls'], st.get('cname') or st['cls']))
         late_copies.append(scopy)
     parts += late_copies
     if job.get('globals'):
@@ -443,7 +453,7 @@ def run_job_uncached(job, tier='quick', log=print):
     # a second binary without the canary, run with --stop-on-fail: finds ONE failing obligation fast even
     # when some other obligation is too hard to decide (a failing obligation must not hide behind a timeout)
     gb2, r2 = B1.compile_goto(cfile, OUT, entry, defines + ['VP_NO_CANARY'], [PRELUDE, ROOT], suffix='.sof')
-    if r2['rc'] == 0:
+    if r2['rc'] == 0 and not job.get('no_sof'):
         igb2, r3 = B1.instrument(gb2, entry, job.get('enforce'), replace, loop_contracts=job.get('loop_contracts', True))
         if r3['rc'] == 0:
             members.append(dict(label='cadical-sof', igb=igb2, solver='cadical', extra=list(job.get('cbmc_flags', [])) + ['--stop-on-fail'], sof=True))
